@@ -276,6 +276,11 @@ func (p *Packet) SetPayload(data []byte) (int, error) {
 		// the optional fields announced by the adaptation field do not fit in the packet
 		return 0, gots.ErrInvalidPacketLength
 	}
+	// data may be a view into this very packet (part of what Payload returned):
+	// resizing and stuffing the adaptation field writes over those bytes
+	// (no more than a packet's worth of it can be stored)
+	var own [PacketSize]byte
+	data = own[:copy(own[:], data)]
 	if freeSpace > len(data) {
 		p.SetAdaptationFieldControl(PayloadAndAdaptationFieldFlag)
 		af, _ := p.AdaptationField()
